@@ -56,6 +56,7 @@ def monitor_unit(c):
         return "WrapReplayMarker: " + c["wrap_bad"]
     prev = {}
     preset = set()
+    started = {}   # address -> (cookie, time of the successful Start)
     for i, o in enumerate(c["ops"]):
         cur = {d[0]: d for d in o["dump"]}
         if o["k"] == "preset":
@@ -79,6 +80,13 @@ def monitor_unit(c):
                 return "op %d: response accepted without a pending, matching, unexpired challenge" % i
             if cur:
                 return "op %d: paths not cleared after an accepted response" % i
+            st = started.get(o["a"])
+            if st is None or st[0] != o["cookie"] or o["now"] >= st[1] + SECOND:
+                return "op %d: response accepted %s after its challenge was issued" % (
+                    i, "%d ns" % (o["now"] - st[1]) if st and st[0] == o["cookie"] else "without/long")
+            started = {}
+        if o["k"] == "start" and o["res"]:
+            started[o["a"]] = (o["cookie"], o["now"])
         prev = cur
     return None
 
